@@ -190,9 +190,10 @@ func runC01_1(c *core.Ctx) {
 			}
 			return s
 		}
-		sol := f.Graph().Run(au)
+		ig := f.InlinedGraph()
+		sol := ig.Run(au)
 		record = true
-		for _, b := range f.Graph().Blocks {
+		for _, b := range ig.Blocks {
 			if sol.Seen[b.ID] && sol.In[b.ID]&(1<<sPending) != 0 {
 				s := sPending
 				for _, nd := range b.Nodes {
